@@ -72,6 +72,16 @@ ConcatKcap(ra, rb) ==
 \* the API term `desc` (a unary operation without its input) applied to `a`
 WithIn(desc, a) == [x \in (DOMAIN desc) \cup {"in"} |-> IF x = "in" THEN a ELSE desc[x]]
 
+\* copy(freeze=True) of a pipeline: every ApplyDataset in it is replaced by the
+\* dataset its function returns (ApplyDataset.copy: apply_function(input).copy(True))
+RECURSIVE Frozen(_)
+Frozen(a) ==
+  CASE a.op \in {"list", "dict"} -> a
+    [] a.op = "apply" -> [a EXCEPT !.lazy = FALSE, !.in = Frozen(a.in)]
+    [] a.op \in {"concat", "intersperse", "zip", "keyzip"} ->
+         [a EXCEPT !.in = Frozen(a.in), !.in2 = Frozen(a.in2)]
+    [] OTHER -> [a EXCEPT !.in = Frozen(a.in)]
+
 RECURSIVE Ref(_)
 RefSlice(r, form) ==
   LET n == Len(r.el) IN
@@ -264,7 +274,7 @@ Ref(a) ==
              THEN RefRec(r.el, "none", "keys")
              ELSE RefRec([j \in 1..Len(r.el) |-> ElOk("", r.el[j].v)], "none", "none")
         [] a.op = "catch"   -> RefCatch(r, a.E)
-        [] a.op = "copy"    -> r
+        [] a.op = "copy"    -> IF a.freeze THEN Ref(Frozen(a.in)) ELSE r
         \* ds.apply(g, lazy): g(ds); lazy = g is applied (to a frozen copy) before
         \* every iteration - the same examples, but only iteration / items() are
         \* offered, and what g must refuse shows when iterating, not when building
